@@ -4,6 +4,7 @@ ID=$1; V=$2; shift 2
 PROPS=${@:-$ID}
 S=/verif/seeded/$ID-$V
 [ -d $S ] || S=/var/tmp/seed/$ID/$V
-git -C /repo apply $S/patch.diff || { echo "PATCH DOES NOT APPLY"; exit 2; }
+P=$S/patch.diff; [ -f $S/patch.rebased.diff ] && P=$S/patch.rebased.diff
+git -C /repo apply $P || { echo "PATCH DOES NOT APPLY"; exit 2; }
 for p in $PROPS; do (cd /verif && LR_EVIDENCE_DIR=/var/tmp/lr-evidence ./check $p | grep -E "^property|VIOLATION|^  rule|^  key|^  [A-Za-z]" | grep -v "^  R-" ); done
 git -C /repo checkout -- .
